@@ -46,13 +46,79 @@ def _stmt_sig(st):
     return '%s:%s' % (st.kind, st.table)
 
 
+def _sql_cleanup_family(ctx):
+    """Private Cache methods that are handed the two values a transaction block yields (statement executor and
+    deferred-removal callback), directly or through another member: {Func: (executor param, callback param)}."""
+    cached = ctx.__dict__.get('_sqlcleanup_family')
+    if cached is not None:
+        return cached
+    methods = ctx.prog.classes['Cache'].methods
+    mgr = ctx.prog.roles['txn_manager'].name
+    fam = {}
+
+    def note(call, a, b):
+        d = dotted(call.func) or ''
+        if not d.startswith('self.'):
+            return
+        h = methods.get(d[5:])
+        if h is None or h.is_contextmanager or h.is_property:
+            return
+        pa = pb = None
+        for i, x in enumerate(call.args):
+            if isinstance(x, ast.Name) and i < len(h.params):
+                if x.id == a:
+                    pa = h.params[i]
+                if x.id == b:
+                    pb = h.params[i]
+        for k in call.keywords:
+            if isinstance(k.value, ast.Name) and k.arg:
+                if k.value.id == a:
+                    pa = k.arg
+                if k.value.id == b:
+                    pb = k.arg
+        if pa and pb and h not in fam:
+            fam[h] = (pa, pb)
+            return True
+    for g in methods.values():
+        for w in ast.walk(g.node):
+            if not isinstance(w, ast.With):
+                continue
+            for it in w.items:
+                c = it.context_expr
+                if isinstance(c, ast.Call) and dotted(c.func) == 'self.' + mgr and isinstance(it.optional_vars, ast.Tuple) \
+                        and len(it.optional_vars.elts) == 2 and all(isinstance(x, ast.Name) for x in it.optional_vars.elts):
+                    a, b = (x.id for x in it.optional_vars.elts)
+                    for n in ast.walk(w):
+                        if isinstance(n, ast.Call):
+                            note(n, a, b)
+    changed = True
+    while changed:
+        changed = False
+        for h, (a, b) in list(fam.items()):
+            for n in ast.walk(h.node):
+                if isinstance(n, ast.Call) and note(n, a, b):
+                    changed = True
+    ctx.__dict__['_sqlcleanup_family'] = fam
+    return fam
+
+
 def helper_roles(ctx):
     """Private helpers of Cache found by what they do: {'cull': per-write cull helper, 'bulk': bulk deleter}."""
     out = {}
     methods = ctx.prog.classes['Cache'].methods
-    for f in methods.values():
-        if 'sql' in f.params and 'cleanup' in f.params and not f.is_contextmanager and f.name.startswith('_'):
-            out['cull'] = f
+    fam = _sql_cleanup_family(ctx)
+    cands = [f for f in methods.values() if f in fam and f.name.startswith('_') and not f.name.startswith('__')]
+    # the per-write cull helper may itself be split into helpers with the same parameters: the root is the one
+    # called from outside the family
+    names = {f.name for f in cands}
+    for f in cands:
+        for g in methods.values():
+            if g in cands:
+                continue
+            if any(isinstance(n, ast.Attribute) and n.attr == f.name for n in ast.walk(g.node)):
+                out['cull'] = f
+    if 'cull' not in out and cands:
+        out['cull'] = cands[0]
     for f in methods.values():
         if not f.name.startswith('_') or f.name.startswith('__') or f is out.get('cull') or f.is_property:
             continue
